@@ -223,6 +223,7 @@ inline Outcome replay(const Config& cf, const std::vector<Op>& ops, int checkFro
   Outcome out;
   static const bool TRACE = getenv("C10_TRACE") != nullptr;
   auto tr = [&](const std::string& s) {
+    if (mark) c10::progress("t" + s + "\n");
     if (trace && trace->size() < 1200) *trace += (trace->empty() ? "" : ",") + s;
     if (TRACE) fprintf(stderr, "[kcalc] %s\n", s.c_str());
   };
@@ -317,6 +318,7 @@ inline Outcome replay(const Config& cf, const std::vector<Op>& ops, int checkFro
         int g = o.arg;
         if ((g == 9 || g == 11) && cur.X == nullptr) { applied = false; break; }
         if (TRACE) fprintf(stderr, "[kcalc] asking %s\n", GETTERS[g]);
+        if (mark) c10::progress(fmt("S%d%d%d%d\n", cur.colcok, cur.xvalid, cur.bayes, (cur.X == nullptr && cur.everHadX)));
         Answer a = ask(K, g);
         if (mark) c10::progress(std::string(a.ok ? "=ok" : "=fail") + "\n");
         tr(std::string(GETTERS[g]) + (a.ok ? "" : "!"));
@@ -398,6 +400,50 @@ inline std::vector<Op> shrink(const Config& cf, const std::vector<Op>& ops, int 
   }
   cur.push_back(fin);
   return cur;
+}
+
+// Class of a minimal history (names of the applied operations BEFORE the final getter, failed getters end with '!'):
+//  * the op before the getter is a getter that FAILED        -> half-built-after-failed:<what was asked>
+//  * X was given then removed with setLHS(Sigma,nullptr)      -> stale-after:setLHS(Sigma,null)-removing-the-drift
+//  * collocated option switched off in the history, not on at the end -> stale-after:setColCokUnique(off)
+//  * otherwise: the last setter of the minimal history (the invalidation edge that did not fire) + the mode
+inline std::string classify(const std::vector<std::string>& before, bool colcok, bool xvalid, bool bayes, bool driftRemoved)
+{
+  std::string pop = before.empty() ? "" : before.back();
+  std::string prev = "none";
+  bool sawColcokOff = false;
+  for (int i = (int)before.size() - 1; i >= 0; i--)
+  {
+    if (before[i] == "setColCokUnique(off)") sawColcokOff = true;
+    if (prev == "none" && before[i].find("set") == 0) prev = before[i];
+  }
+  if (!pop.empty() && pop.back() == '!')
+  {
+    std::string fg = pop.substr(0, pop.size() - 1);
+    if (fg == "getStdvMat") fg = "getStdv";                   // same memo
+    if (fg == "getVarianceZstarMat") fg = "getVarianceZstar"; // same memo
+    return "half-built-after-failed:" + fg;
+  }
+  if (driftRemoved) return "stale-after:setLHS(Sigma,null)-removing-the-drift";
+  if (!colcok && sawColcokOff) return "stale-after:setColCokUnique(off)";
+  std::string k = "stale-after:" + prev;
+  if (colcok) k += ":colcok";
+  if (xvalid) k += ":xvalid";
+  if (bayes) k += ":bayes";
+  return k;
+}
+inline std::vector<std::string> splitComma(const std::string& t)
+{
+  std::vector<std::string> v;
+  size_t p = 0;
+  while (p <= t.size())
+  {
+    size_t e = t.find(',', p);
+    if (e == std::string::npos) e = t.size();
+    if (e > p) v.push_back(t.substr(p, e - p));
+    p = e + 1;
+  }
+  return v;
 }
 
 // setLHS(Sigma, X) then setLHS(Sigma, nullptr) ("X == nullptr -> SK"), then setXvalidUnique: a fresh object with this
@@ -529,37 +575,9 @@ inline void run(Rng& r, Ctx& c)
       std::string wtrace;
       Outcome wm = replay(cf, w, (int)w.size() - 1, &wtrace);
       c10::progress("D\n");
-      // Key = class of the minimal history (the getter and the full minimal history are in the detail):
-      //  * the op before the getter is a getter that FAILED        -> half-built-after-failed:<what was asked>
-      //  * the minimal history gives X then removes it with setLHS(Sigma,nullptr) -> stale-after:setLHS(Sigma,null)-removing-the-drift
-      //  * collocated option switched off, collocated getter still delivers -> stale-after:setColCokUnique(off)
-      //  * otherwise: the last setter of the minimal history (the invalidation edge that did not fire) + the mode
-      std::string key = "C10:incremental:KrigingCalcul:";
-      {
-        size_t lastComma = wtrace.rfind(',');
-        std::string head = lastComma == std::string::npos ? "" : wtrace.substr(0, lastComma);
-        size_t c2        = head.rfind(',');
-        std::string pop  = c2 == std::string::npos ? head : head.substr(c2 + 1);
-        std::string prev = "none";
-        for (int i = (int)w.size() - 2; i >= 0; i--)
-          if (w[i].kind != GETTER) { prev = opName(w[i]); break; }
-        if (!pop.empty() && pop.back() == '!')
-        {
-          std::string fg = pop.substr(0, pop.size() - 1);
-          if (fg == "getStdvMat") fg = "getStdv";                   // same memo
-          if (fg == "getVarianceZstarMat") fg = "getVarianceZstar"; // same memo
-          key += "half-built-after-failed:" + fg;
-        }
-        else if (wm.driftRemoved) key += "stale-after:setLHS(Sigma,null)-removing-the-drift";
-        else if (!wm.colcok && wtrace.find("setColCokUnique(off)") != std::string::npos) key += "stale-after:setColCokUnique(off)";
-        else
-        {
-          key += "stale-after:" + prev;
-          if (wm.colcok) key += ":colcok";
-          if (wm.xvalid) key += ":xvalid";
-          if (wm.bayes) key += ":bayes";
-        }
-      }
+      std::vector<std::string> before = splitComma(wtrace);
+      if (!before.empty()) before.pop_back(); // the final getter
+      std::string key = "C10:incremental:KrigingCalcul:" + classify(before, wm.colcok, wm.xvalid, wm.bayes, wm.driftRemoved);
       if (cf.dual) key += ":dual";
       send({"kcalc-twin", key,
             std::string(GETTERS[w.back().arg]) + fmt(": delivered incremental=%d fresh=%d, sizes %zu/%zu; minimal history: ", wm.incOk, wm.twinOk, wm.incN, wm.twinN) + wtrace, false,
@@ -602,27 +620,66 @@ inline void run(Rng& r, Ctx& c)
       }
     }
   }
-  if (ch.ok) c.puts("history", ch.data.substr(0, 600));
+  if (ch.ok) { c.puts("history", ch.data.substr(0, 600)); return; }
+  std::string key = "C10:incremental:KrigingCalcul:process-dies:";
+  std::string what;
+  if (shrinking >= 0) { key += "while-shrinking"; what = GETTERS[ops[shrinking].arg]; }
+  else if (lastOp < 0) key += "startup";
   else
   {
-    std::string key = "C10:incremental:KrigingCalcul:process-dies:";
-    std::string what;
-    if (shrinking >= 0) { key += "while-shrinking"; what = GETTERS[ops[shrinking].arg]; }
-    else if (lastOp >= 0)
+    // the process died inside ops[lastOp]: shrink the history before it (one child per trial), then classify the
+    // minimal deadly history like a mismatch
+    std::vector<Op> cur(ops.begin(), ops.begin() + lastOp);
+    const Op fin = ops[lastOp];
+    c10::Child lastDeath = ch;
+    auto dies = [&](const std::vector<Op>& v) {
+      std::vector<Op> t = v;
+      t.push_back(fin);
+      c10::Child k = c10::run_child([&]() -> std::string { (void)replay(cf, t, (int)t.size(), nullptr, true); return "OK"; });
+      if (!k.ok) lastDeath = k;
+      return !k.ok;
+    };
+    size_t n = 2;
+    int trials = 0;
+    while (cur.size() >= 2 && trials < 80)
     {
-      std::string prev = prevOp >= 0 ? opName(ops[prevOp]) : "none";
-      if (prevOp >= 0 && ops[prevOp].kind == GETTER && prevFailed)
+      size_t chunk = (cur.size() + n - 1) / n;
+      bool reduced = false;
+      for (size_t start = 0; start < cur.size(); start += chunk)
       {
-        if (prev == "getStdvMat") prev = "getStdv";
-        if (prev == "getVarianceZstarMat") prev = "getVarianceZstar";
-        prev = "failed-" + prev;
+        std::vector<Op> t;
+        for (size_t i = 0; i < cur.size(); i++)
+          if (i < start || i >= start + chunk) t.push_back(cur[i]);
+        trials++;
+        if (dies(t)) { cur = t; n = std::max<size_t>(n - 1, 2); reduced = true; break; }
       }
-      else if (prevOp >= 0 && ops[prevOp].kind == GETTER) prev = "getter";
-      key += "after-" + prev;
-      what = "in " + opName(ops[lastOp]);
+      if (!reduced)
+      {
+        if (n >= cur.size()) break;
+        n = std::min(cur.size(), 2 * n);
+      }
     }
-    else key += "startup";
-    c.truth("kcalc-survives", key, false, what + ": child " + ch.why());
+    (void)dies(cur); // progress of the minimal deadly history
+    std::vector<std::string> before;
+    bool f[4] = {false, false, false, false};
+    {
+      size_t p = 0;
+      const std::string& pr = lastDeath.progress;
+      while (p < pr.size())
+      {
+        size_t e = pr.find('\n', p);
+        if (e == std::string::npos) break;
+        std::string line = pr.substr(p, e - p);
+        p = e + 1;
+        if (line.size() > 1 && line[0] == 't') before.push_back(line.substr(1));
+        if (line.size() == 5 && line[0] == 'S') for (int q = 0; q < 4; q++) f[q] = line[1 + q] == '1';
+      }
+    }
+    key += classify(before, f[0], f[1], f[2], f[3]);
+    if (cf.dual) key += ":dual";
+    what = "in " + opName(fin) + " after minimal history ";
+    for (auto& b : before) what += b + ",";
   }
+  c.truth("kcalc-survives", key, false, what + ": child " + ch.why());
 }
 } // namespace c10k
